@@ -129,9 +129,10 @@ def run(ctx: Check, tree: Tree) -> None:
     # ---- builder API == function API
     ctx.section(check_builder, ctx, tree, te)
     ctx.section(check_hankel_series, ctx, tree)
-    from .c13 import check_variable_set
+    from .c13 import check_same_decay, check_variable_set
 
     ctx.section(check_variable_set, ctx, tree)
+    ctx.section(check_same_decay, ctx, tree)  # the builder is called for THIS node's variable set (no memo that ignores L)
 
 
 def check_single_source(ctx: Check, tree: Tree) -> None:
